@@ -85,6 +85,7 @@ type ex struct {
 	opt  bool // optional chain at member level: must not be wrapped and continued
 	call bool // contains a call at member level (cannot be a `new` callee without parens)
 	num  bool // plain decimal integer literal (needs care before '.')
+	numlit bool // any numeric literal
 }
 
 const (
@@ -228,6 +229,9 @@ func (g *gen) pickVar(pred func(*variable) bool) *variable {
 }
 
 func kindOK(have, want kind) bool {
+	if have > kCls {
+		return false
+	}
 	if want == kAny {
 		return have != kFn && have != kBig && have != kCls
 	}
